@@ -94,6 +94,11 @@ pub struct MemFn {
     /// its `args`, then the return pointer variable (when there is one)
     pub params: Vec<String>,
     pub ops: Vec<MemOp>,
+    /// the variables that hold a value when the item starts: parameters, the
+    /// context and return pointers, stack slots
+    pub initial: Vec<String>,
+    /// the blocks, entry block first: (label, range of `ops`, labels of the successors)
+    pub blocks: Vec<(String, std::ops::Range<usize>, Vec<String>)>,
 }
 
 fn mem_var(v: &crate::lir::Var) -> String {
@@ -119,7 +124,8 @@ fn mem_op(i: &crate::lir::Instruction) -> MemOp {
         callee: None,
     };
     match i {
-        Jump(_) | Switch { .. } => m("ct", None, vec![]),
+        Jump(_) => m("ct", None, vec![]),
+        Switch { examinee, .. } => m("ct", None, vec![mem_operand(examinee)]),
         Assign { to, val, .. } => m("as", Some(to), vec![mem_operand(val)]),
         ConstantAddress { to, .. } => m("ca", Some(to), vec![]),
         FunctionAddress { to, .. } => m("rt", Some(to), vec![]),
@@ -159,35 +165,61 @@ fn mem_op(i: &crate::lir::Instruction) -> MemOp {
 pub(crate) fn mem_fns(lir: &crate::lir::Lir) -> Vec<MemFn> {
     lir.functions
         .iter()
-        .map(|item| MemFn {
-            name: item.name.as_str().to_string(),
-            params: match &item.kind {
+        .map(|item| {
+            let var = |kind| {
+                mem_var(&crate::lir::Var {
+                    scope: item.scope,
+                    kind,
+                })
+            };
+            let params: Vec<String> = match &item.kind {
                 crate::lir::ItemKind::Function { ir_signature, .. } => ir_signature
                     .parameters
                     .iter()
-                    .map(|(ident, _)| {
-                        mem_var(&crate::lir::Var {
-                            scope: item.scope,
-                            kind: crate::lir::VarKind::Explicit(*ident),
-                        })
-                    })
-                    .chain(ir_signature.return_ptr.then(|| {
-                        mem_var(&crate::lir::Var {
-                            scope: item.scope,
-                            kind: crate::lir::VarKind::Return,
-                        })
-                    }))
+                    .map(|(ident, _)| var(crate::lir::VarKind::Explicit(*ident)))
+                    .chain(ir_signature.return_ptr.then(|| var(crate::lir::VarKind::Return)))
                     .collect(),
-                crate::lir::ItemKind::Constant { .. } => vec![mem_var(&crate::lir::Var {
-                    scope: item.scope,
-                    kind: crate::lir::VarKind::Return,
-                })],
-            },
-            ops: item
-                .blocks
-                .iter()
-                .flat_map(|b| b.instructions.iter().map(mem_op))
-                .collect(),
+                crate::lir::ItemKind::Constant { .. } => vec![var(crate::lir::VarKind::Return)],
+            };
+            let mut initial = params.clone();
+            initial.push("$context".to_string());
+            initial.push(var(crate::lir::VarKind::Return));
+            for (v, kind) in &item.variables {
+                if matches!(kind, crate::lir::ValueOrSlot::StackSlot(_)) {
+                    initial.push(mem_var(v));
+                }
+            }
+            // entry block first
+            let mut order: Vec<&crate::lir::Block> = item.blocks.iter().collect();
+            if let Some(i) = order.iter().position(|b| b.label == item.entry_block) {
+                let e = order.remove(i);
+                order.insert(0, e);
+            }
+            let mut ops = vec![];
+            let mut blocks = vec![];
+            for b in order {
+                let start = ops.len();
+                let mut succs = vec![];
+                for i in &b.instructions {
+                    match i {
+                        crate::lir::Instruction::Jump(l) => succs.push(format!("{l:?}")),
+                        crate::lir::Instruction::Switch { branches, default, .. } => {
+                            succs.extend(branches.iter().map(|(_, l)| format!("{l:?}")));
+                            succs.push(format!("{default:?}"));
+                        }
+                        _ => {}
+                    }
+                    ops.push(mem_op(i));
+                }
+                blocks.push((format!("{:?}", b.label), start..ops.len(), succs));
+            }
+            MemFn {
+                name: item.name.as_str().to_string(),
+                params,
+                ops,
+                initial,
+                blocks,
+            }
         })
         .collect()
 }
